@@ -1414,6 +1414,16 @@ impl World {
             Op::NewCtx { out, ns } => {
                 self.model.set_slot(*out, MSlot::Ctx(ns.clone()));
             }
+            Op::CtxNs { ctx, prefix, uri } => {
+                if let Some(MSlot::Ctx(ns)) = self.model.slot(*ctx).cloned() {
+                    let mut ns: Vec<(String, String)> = ns.into_iter().filter(|(p, _)| p != prefix).collect();
+                    if !uri.is_empty() {
+                        ns.push((prefix.clone(), uri.clone()));
+                    }
+                    self.model.set_slot(*ctx, MSlot::Ctx(ns));
+                    rep.probes.push("context_prefix_rebound");
+                }
+            }
             Op::Query { ctx, doc, expr, out } => {
                 let ns = match self.model.slot(*ctx) {
                     Some(MSlot::Ctx(ns)) => ns.clone(),
